@@ -107,6 +107,7 @@ package bttest
 // in bttest_ifaces.spec, so "exactly the rows with the prefix" is stated on the list of keys handed to Rows.Delete.
 //@ func (s *server) DropRowRange
 //@   property C14 C08 C20
+//@   requires !btIterating
 //@   requires req != nil
 //@   ensures !old(req.Name in s.tables) ==> result0 == nil && result1 != nil && uf_grpcCode(result1) == codes.NotFound
 //@   ensures old(req.Name in s.tables) && !dropAllReq(req) && !dropPrefixReq(req) ==> result0 == nil && result1 != nil
@@ -134,15 +135,26 @@ package bttest
 // no modification at an index < n names family k
 //@ spec modUnnamed(ms []*btapb.ModifyColumnFamiliesRequest_Modification, k string, n int) bool = forall j :: 0 <= j < n ==> ms[j].Id != k
 
+// A batch of rows collected during one iteration and written back after it: every row is a private deep-fresh copy
+// delivered in the current critical section and satisfies the representation invariant; the trees of two rows of the
+// batch share no node, so writing one back (updateRow scrubs it in place) leaves the others as they are.
+//@ spec treeFreshFC(r *btpb.Row) bool = (obj(r.Families) == 0 || fresh(r.Families)) && forall i :: 0 <= i < len(r.Families) ==> fresh(r.Families[i]) && (obj(r.Families[i].Columns) == 0 || fresh(r.Families[i].Columns))
+//@ spec batchRow(r *btpb.Row) bool = r != nil && fresh(r) && treeFreshFC(r) && rowOK(r) && famSep(r.Families) && rowDesc(r) && obj(r) > csStart()
+//@ spec batchOK(rows []*btpb.Row) bool = forall k :: 0 <= k < len(rows) ==> batchRow(rows[k])
+//@ spec batchApart(rows []*btpb.Row) bool = forall j, k :: 0 <= j < k < len(rows) ==> rowsApartF(rows[j], rows[k]) && rowsApartC(rows[j], rows[k])
+//@ spec batchFrom(rows []*btpb.Row, n int) bool = forall k :: n <= k < len(rows) ==> batchRow(rows[k])
+//@ spec batchApartFrom(rows []*btpb.Row, n int) bool = forall j, k :: n <= j < k < len(rows) ==> rowsApartF(rows[j], rows[k]) && rowsApartC(rows[j], rows[k])
+
 // The only Go-heap cell of pre-existing objects that changes is the ColumnFamilies field of the table definition
 // (it is replaced by a new map: the old map object is never written, so an error return leaves the family map
 // untouched). The two bigtablepb heaps are in the footprint only because the contracts of scrubRow / updateRow
 // (used by the purge closure on rows freshly read from the store) declare them wholesale.
 //@ func (s *server) ModifyColumnFamilies
 //@   property C14 C08 C20
+//@   requires !btIterating
 //@   requires req != nil
 //@   modifies s.tables[req.Name].def.ColumnFamilies, heap("F:bigtablepb.Family.Columns"), heap("T:*bigtablepb.Column")
-//@   modifies ghost(btReadEpoch), ghost(btReadRow), ghost(btMetaOps)
+//@   modifies ghost(btReadEpoch), ghost(btMetaOps)
 //@   ensures !old(req.Name in s.tables) ==> result0 == nil && result1 != nil && uf_grpcCode(result1) == codes.NotFound
 //@   ensures result1 != nil ==> result0 == nil
 //@   ensures result1 != nil ==> btMetaOps == old(btMetaOps)
@@ -163,13 +175,13 @@ package bttest
 //@   ensures old(req.Name in s.tables) ==> forall i :: old(0 <= i < len(req.Modifications) && (modIsDrop(req.Modifications[i]) || modIsUpdate(req.Modifications[i])) && modFirst(req.Modifications, i) && !(req.Modifications[i].Id in s.tables[req.Name].def.ColumnFamilies)) ==> result1 != nil
 //@   ensures old(req.Name in s.tables) ==> forall i :: old(0 <= i < len(req.Modifications) && modIsCreate(req.Modifications[i]) && modFirst(req.Modifications, i) && (req.Modifications[i].Id in s.tables[req.Name].def.ColumnFamilies)) ==> result1 != nil
 //@   ensures old(req.Name in s.tables && len(req.Modifications) > 0 && modIsCreate(req.Modifications[0]) && (req.Modifications[0].Id in s.tables[req.Name].def.ColumnFamilies)) ==> result1 != nil && uf_grpcCode(result1) == codes.AlreadyExists
-//@   loop 1 invariant cfs != nil && fresh(cfs)
+//@   loop 1 invariant cfs != nil && fresh(cfs) && !btIterating
 //@   loop 1 invariant frameOld(heap("F:adminpb.ColumnFamily.GcRule"), heap("Md:map[string]*adminpb.ColumnFamily"), heap("Mv:map[string]*adminpb.ColumnFamily"))
 //@   loop 1 invariant forall k string :: (k in cfs) ==> cfs[k] != nil
 //@   loop 1 invariant forall k string :: (k in cfs) ==> obj(cfs[k]) <= alloc()
 //@   loop 1 invariant forall k string :: (k in cfs) ==> old(k in s.tables[req.Name].def.ColumnFamilies) && cfs[k] == old(s.tables[req.Name].def.ColumnFamilies[k])
 //@   loop 1 invariant forall k string :: visited1[k] ==> (k in cfs)
-//@   loop 2 invariant cfs != nil && fresh(cfs)
+//@   loop 2 invariant cfs != nil && fresh(cfs) && !btIterating
 //@   loop 2 invariant frameOld(heap("F:adminpb.ColumnFamily.GcRule"), heap("Md:map[string]*adminpb.ColumnFamily"), heap("Mv:map[string]*adminpb.ColumnFamily"))
 //@   loop 2 invariant forall k string :: (k in cfs) ==> cfs[k] != nil
 //@   loop 2 invariant forall k string :: (k in cfs) ==> obj(cfs[k]) <= alloc()
@@ -182,6 +194,20 @@ package bttest
 //@   loop 2 invariant forall i :: old(0 <= i <= idx2 && modLast(req.Modifications, i, idx2 + 1) && modIsUpdate(req.Modifications[i])) ==> cfs[old(req.Modifications[i].Id)].GcRule == old(as(req.Modifications[i].Mod, *btapb.ModifyColumnFamiliesRequest_Modification_Update).Update.GcRule)
 //@   loop 2 invariant forall i :: old(0 <= i <= idx2 && (modIsDrop(req.Modifications[i]) || modIsUpdate(req.Modifications[i])) && modFirst(req.Modifications, i)) ==> old(req.Modifications[i].Id in s.tables[req.Name].def.ColumnFamilies)
 //@   loop 2 invariant forall i :: old(0 <= i <= idx2 && modIsCreate(req.Modifications[i]) && modFirst(req.Modifications, i)) ==> !old(req.Modifications[i].Id in s.tables[req.Name].def.ColumnFamilies)
+// The purge collects the rows that change during the iteration (callback $1) and writes them back afterwards (loop 3).
+//@   callback $1 invariant cap(changedRows) == 0 || fresh(changedRows)
+//@   callback $1 invariant forall k :: 0 <= k < len(changedRows) ==> changedRows[k] != nil && fresh(changedRows[k]) && obj(changedRows[k]) > csStart()
+//@   callback $1 invariant forall k :: 0 <= k < len(changedRows) ==> treeFreshFC(changedRows[k])
+//@   callback $1 invariant forall k :: 0 <= k < len(changedRows) ==> rowOK(changedRows[k])
+//@   callback $1 invariant forall k :: 0 <= k < len(changedRows) ==> famSep(changedRows[k].Families)
+//@   callback $1 invariant forall k :: 0 <= k < len(changedRows) ==> rowDesc(changedRows[k])
+//@   callback $1 invariant batchApart(changedRows)
+//@   callback $1 invariant held(tbl.mu) == 2
+//@   loop 3 invariant cap(changedRows) == 0 || fresh(changedRows)
+//@   loop 3 invariant batchFrom(changedRows, idx3 + 1) && batchApartFrom(changedRows, idx3 + 1)
+//@   loop 3 invariant btReadEpoch == epoch && held(tbl.mu) == 2 && !btIterating
+//@   loop 3 invariant tbl.def.ColumnFamilies == cfs
+//@   loop 3 invariant frameOld(heap("F:adminpb.ColumnFamily.GcRule"), heap("Md:map[string]*adminpb.ColumnFamily"), heap("Mv:map[string]*adminpb.ColumnFamily"))
 //@   callback $1 invariant tbl.def.ColumnFamilies == cfs
 //@   callback $1 invariant frameOld(heap("F:adminpb.ColumnFamily.GcRule"), heap("Md:map[string]*adminpb.ColumnFamily"), heap("Mv:map[string]*adminpb.ColumnFamily"))
 
@@ -195,26 +221,48 @@ package bttest
 // written are fresh copies delivered by the iterator).
 //@ func (t *table) gc
 //@   property C16 C20
+//@   requires !btIterating
 //@   held t.mu none
 //@   modifies t.lastWriteNanos, heap("F:bigtablepb.Family.Columns"), heap("T:*bigtablepb.Column")
-//@   modifies ghost(btReadEpoch), ghost(btReadRow)
+//@   modifies ghost(btReadEpoch)
 //@   ensures t.lastWriteNanos == 0 || (!force && t.lastWriteNanos == old(t.lastWriteNanos))
 //@   loop 1 invariant rules != nil && fresh(rules) && held(t.mu) == 2
 //@   loop 1 invariant frameOld(heap("Md:map[string]*adminpb.GcRule"), heap("Mv:map[string]*adminpb.GcRule"))
 //@   loop 1 invariant forall k string :: (k in rules) ==> rules[k] != nil
 //@   loop 1 invariant forall k string :: (k in rules) ==> (k in t.def.ColumnFamilies) && rules[k] == t.def.ColumnFamilies[k].GcRule
 //@   loop 1 invariant forall k string :: visited1[k] && t.def.ColumnFamilies[k].GcRule != nil ==> (k in rules)
+// Loop 2 is the batch loop (one critical section per iteration: iterate over at most 100 rows collecting the changed
+// ones, write them back after the iteration, release and re-take the lock); loop 3 writes the batch back.
+//@   loop 2 invariant held(t.mu) == 2 && t.lastWriteNanos == old(t.lastWriteNanos) && !btIterating
+//@   loop 2 invariant rules != nil
+//@   loop 2 invariant frameOld(heap("F:bigtablepb.Column.Cells"), heap("F:bigtablepb.Row.Families"), heap("T:*bigtablepb.Family"), heap("T:*bigtablepb.Row"), heap("T:[]*bigtablepb.Row"), heap("T:[]uint8"), heap("T:int"), heap("T:bool"), heap("Md:map[string]*adminpb.GcRule"), heap("Mv:map[string]*adminpb.GcRule"))
+//@   loop 3 invariant held(t.mu) == 2 && t.lastWriteNanos == old(t.lastWriteNanos) && !btIterating
+//@   loop 3 invariant frameOld(heap("F:bigtablepb.Column.Cells"), heap("F:bigtablepb.Row.Families"), heap("T:*bigtablepb.Family"), heap("T:*bigtablepb.Row"), heap("T:[]*bigtablepb.Row"), heap("T:[]uint8"), heap("T:int"), heap("T:bool"), heap("Md:map[string]*adminpb.GcRule"), heap("Mv:map[string]*adminpb.GcRule"))
+//@   loop 3 invariant cap(changedRows) == 0 || fresh(changedRows)
+//@   loop 3 invariant batchFrom(changedRows, idx3 + 1) && batchApartFrom(changedRows, idx3 + 1)
+//@   loop 3 invariant btReadEpoch == epoch
+//@   callback $1 invariant cap(changedRows) == 0 || fresh(changedRows)
+//@   callback $1 invariant forall k :: 0 <= k < len(changedRows) ==> changedRows[k] != nil && fresh(changedRows[k]) && obj(changedRows[k]) > csStart()
+//@   callback $1 invariant forall k :: 0 <= k < len(changedRows) ==> treeFreshFC(changedRows[k])
+//@   callback $1 invariant forall k :: 0 <= k < len(changedRows) ==> rowOK(changedRows[k])
+//@   callback $1 invariant forall k :: 0 <= k < len(changedRows) ==> famSep(changedRows[k].Families)
+//@   callback $1 invariant forall k :: 0 <= k < len(changedRows) ==> rowDesc(changedRows[k])
+//@   callback $1 invariant batchApart(changedRows)
 //@   callback $1 invariant held(t.mu) == 2
 //@   callback $1 invariant t.lastWriteNanos == old(t.lastWriteNanos)
-//@   callback $1 invariant frameOld(heap("F:bigtablepb.Column.Cells"), heap("F:bigtablepb.Row.Families"), heap("T:*bigtablepb.Family"), heap("T:bool"), heap("Md:map[string]*adminpb.GcRule"), heap("Mv:map[string]*adminpb.GcRule"))
+//@   callback $1 invariant frameOld(heap("F:bigtablepb.Column.Cells"), heap("F:bigtablepb.Row.Families"), heap("T:*bigtablepb.Family"), heap("T:*bigtablepb.Row"), heap("T:[]*bigtablepb.Row"), heap("T:[]uint8"), heap("T:int"), heap("T:bool"), heap("Md:map[string]*adminpb.GcRule"), heap("Mv:map[string]*adminpb.GcRule"))
 
 // The per-row callback: families without a rule keep their columns and cells; in families with a rule every
 // column keeps a prefix of its cells (applyGC); 'changed' is true iff some column lost cells; a changed row is
 // handed to updateRow; the lock is released and re-taken in balance (loop-balance obligation of the caller).
 //@ func (t *table) gc$1
 //@   property C16 C20
-//@   callsite (*table).updateRow requires arg1 == r && changed
-//@   callsite (*table).updateRow requires exists a, b :: 0 <= a < len(r.Families) && 0 <= b < len(r.Families[a].Columns) && len(r.Families[a].Columns[b].Cells) < old(len(r.Families[a].Columns[b].Cells))
+//@   loop 1 invariant famSep(r.Families)
+//@   loop 2 invariant famSep(r.Families)
+// only columns of the delivered row (all younger than the invocation) get a new cell list: the rows collected by
+// earlier invocations keep theirs
+//@   loop 1 invariant forall p *btpb.Column :: obj(p) <= cbStart() ==> p.Cells == old(p.Cells)
+//@   loop 2 invariant forall p *btpb.Column :: obj(p) <= cbStart() ==> p.Cells == old(p.Cells)
 //@   loop 1 invariant frameOld(heap("F:bigtablepb.Row.Families"), heap("T:*bigtablepb.Family"), heap("F:bigtablepb.Family.Columns"), heap("T:*bigtablepb.Column"), heap("T:*bigtablepb.Cell"))
 //@   loop 1 invariant rowOK(r)
 //@   loop 1 invariant rowDesc(r)
